@@ -88,7 +88,7 @@ class CompoundStorage(FileStorage):
                 self._file = None
 
     def __repr__(self):
-        return "<%s (%s)>" % (self.__class__.__name__, self._name)
+        return "<%s (%s)>" % (self.__class__.__name__, self._file)
 
     def close(self):
         if self.is_closed:
